@@ -56,10 +56,6 @@ pub fn check(kq: &KeyQuery, w: &DpWorld, params: &DpParameters, mode: &str, seed
         }
     };
     let (noises, taus) = mechanisms(&c.relation);
-    if taus.is_empty() {
-        rep.count("no_threshold_filter(all keys public)");
-        return;
-    }
     let rendered = match render(&c.relation) {
         Ok(s) => s,
         Err(_) => {
@@ -67,6 +63,26 @@ pub fn check(kq: &KeyQuery, w: &DpWorld, params: &DpParameters, mode: &str, seed
             return;
         }
     };
+    if taus.is_empty() {
+        // every key query groups by a private key: without a threshold filter no such key may come out
+        rep.count("no_threshold_filter");
+        let db = Db::new(true, RandomMode::Counter);
+        if w.cat.load(&db).is_err() {
+            return;
+        }
+        if let Ok(result) = db.run_rendered(&rendered) {
+            rep.eval();
+            let released = result.col("k0").map_or(0, |i| result.rows.iter().filter(|r| !r[i].is_null()).count());
+            if released > 0 {
+                rep.violation(
+                    "C04|release|private keys in the result of a rewriting that contains no threshold filter".to_string(),
+                    format!("{} rows with a private key value are returned and the rewritten relation has no `_COUNT_DISTINCT_PID_ > tau` filter", released),
+                    json!({"catalog": w.cat.to_json(40), "query": kq.sql, "rendered": rendered, "dp_parameters": format!("{:?}", params), "result": result.to_json(20)}),
+                );
+            }
+        }
+        return;
+    }
     let mut nodes: HashMap<String, &Relation> = HashMap::new();
     walk(&c.relation, &mut nodes);
     let db = Db::new(true, RandomMode::Counter);
@@ -330,7 +346,11 @@ pub fn run(p: &Params) -> Report {
                 }
             }
             for k in 0..3 {
-                let kq = gen_key_query(&mut r);
+                let mut kq = gen_key_query(&mut r);
+                if r.chance(1, 4) {
+                    // the grouped aggregation under several plain projection layers
+                    kq.sql = format!("SELECT * FROM (SELECT * FROM (SELECT * FROM ({}) AS a) AS b) AS c", kq.sql);
+                }
                 // large epsilon => tau close to 1: keys held by >= 2 units are really released on small data
                 let eps = *r.pick(&[1.0, 20.0, 100.0, 400.0]);
                 let delta = *r.pick(&[1e-6, 1e-3, 0.05]);
